@@ -342,6 +342,65 @@ const INDEXES: &[&str] = &[
     "[1, 2, 3][1.5]",
 ];
 
+/// built-in functions and aggregates with out-of-range / degenerate arguments (index and
+/// allocation panic candidates behind the expression and aggregate evaluators)
+const CALLS: &[&str] = &[
+    "percentile_disc(n.age, 2)",
+    "percentile_cont(n.age, 1.5)",
+    "percentile_disc(n.age, 99999999999)",
+    "percentile_cont(n.age, 1e308)",
+    "percentile_disc(n.age, 0)",
+    "percentile_cont(n.score, 1)",
+    "percentile_disc(n.missing, 0.5)",
+    "percentile_cont(n.name, 0.5)",
+    "stdev(n.age)",
+    "stdev(n.name)",
+    "avg(n.name)",
+    "sum(n.name)",
+    "min(n.missing)",
+    "collect(n.age)[5]",
+    "collect(n.age)[-1]",
+    "substring(n.name, 9, 2)",
+    "substring(n.name, -1)",
+    "substring(n.name, 1, -1)",
+    "left(n.name, 99)",
+    "right(n.name, -1)",
+    "head([])",
+    "last([])",
+    "tail([])",
+    "size(null)",
+    "range(1, 3, 0)",
+    "range(3, 1)",
+    "toInteger('x')",
+    "toInteger(1e308)",
+    "toFloat('1e999')",
+    "abs(-9223372036854775808)",
+    "round(1e308)",
+    "sqrt(-1)",
+    "log(0)",
+    "toString(null)",
+    "coalesce()",
+    "reverse(null)",
+    "split('a', '')",
+    "replace('aaa', '', 'b')",
+    "count(DISTINCT n.missing)",
+];
+
+/// variable-length patterns with degenerate bounds
+const VARLEN: &[&str] = &[
+    "MATCH (a)-[*4294967295..]->(b) RETURN a",
+    "MATCH (a)-[*4294967294..]->(b) RETURN a",
+    "MATCH (a)-[*0..0]->(b) RETURN b",
+    "MATCH (a)-[*5..2]->(b) RETURN b",
+    "MATCH (a)-[*..0]->(b) RETURN b",
+    "MATCH (a)-[*99999999999]->(b) RETURN b",
+    "MATCH (a)-[*0..]->(a) RETURN a",
+    "MATCH p = (a)-[*1..3]->(b) RETURN length(p), p",
+    "MATCH p = shortestPath((a)-[*]->(b)) RETURN length(p)",
+    "MATCH p = shortestPath((a)-[*0..0]->(a)) RETURN p",
+    "MATCH (a)-[:KNOWS*2..1]-(b) RETURN count(b)",
+];
+
 fn cy_atom(r: &mut Rng) -> String {
     match r.below(12) {
         0 | 1 => r.pick(INTS).to_string(),
@@ -766,6 +825,19 @@ pub fn generate(seed: u64, cases: usize, out: &mut Vec<String>) {
         for e in ["9223372036854775807 + 1", "1 / 0", "5 % 0", "-9223372036854775808 / -1"] {
             emit_run(out, lang, "small", &format!("MATCH (n:Person) RETURN {}", e));
             emit_run(out, lang, "small", &format!("MATCH (n:Person) WHERE {} > 0 RETURN n.name", e));
+        }
+    }
+
+    // every call of the table once, on the database with data (aggregates need rows)
+    for lang in ["gql", "cypher"] {
+        for e in CALLS.iter() {
+            emit_run(out, lang, "small", &format!("MATCH (n:Person) RETURN {}", e));
+        }
+    }
+
+    for lang in ["gql", "cypher"] {
+        for q in VARLEN.iter() {
+            emit_run(out, lang, "small", q);
         }
     }
 
